@@ -1,5 +1,6 @@
 """C07 - after a unilateral close every entitled output is recovered, validly and in time (structural part)."""
 from engine import *
+import provenance
 import chainrules
 
 MONP = 'lightning::chain::channelmonitor::'
@@ -421,4 +422,5 @@ RULES = [
 	('07.i', 'anchor claims: compute_package_feerate never returns less than the previous feerate', r07i),
 	('07.h', 'spending our outputs: the cached per-channel signer is checked against the descriptor in every arm', r07h),
 	('07.g', 'reorg boundary: claim tracking keeps exactly the blocks that remain', r07g),
+	('07.p', 'same-name field transfer: structs carrying this property\'s quantities are filled from the same-named field or a reviewed alias (rules/provenance.py)', lambda F: provenance.for_property(F, 'C07', '07.p')),
 ]
